@@ -26,7 +26,7 @@ pub fn term(code: usize) -> Term {
 }
 pub const N_TERMS: u64 = 16;
 
-fn code_of(t: &Term) -> usize {
+pub fn code_of(t: &Term) -> usize {
     (0..N_TERMS as usize + 4).find(|c| &term(*c) == t).unwrap_or(999)
 }
 
